@@ -94,21 +94,38 @@ func runBankCycling(c *fw.Ctx, first int) {
 				want = append(want, v)
 			}
 			for li, comp := range layouts(len(seq)) {
-				for lag := 0; lag <= 1; lag++ {
+				for variant := 0; variant < 4; variant++ {
 					k++
+					lag := variant % 2
+					prelude := variant >= 2 // an earlier read that its callback abandoned (bank closed, error returned)
 					codec := []string{"null", "deflate", "snappy"}[k%3]
 					f := fileCase{schema: bankSchema, datums: recs, encoded: encs, comp: comp, codec: codec, mode: k % filedrv.NumModes, encDesc: fmt.Sprint(seq)}
 					data := f.bytes()
 					c.Eval(1)
-					desc := fmt.Sprintf("record shapes %v (0: no kids, 1: one empty kid, 2: five full kids, 3: five empty kids, 4: one full + one empty kid), file blocks %v, %s, bank closed %d record(s) after delivery", seq, comp, codec, lag)
+					desc := fmt.Sprintf("record shapes %v (0: no kids, 1: one empty kid, 2: five full kids, 3: five empty kids, 4: one full + one empty kid), file blocks %v, %s, bank closed %d record(s) after delivery, preceded by an abandoned read=%v", seq, comp, codec, lag, prelude)
 					det := map[string]interface{}{"shapes": fmt.Sprint(seq), "blocks": fmt.Sprint(comp), "codec": codec, "close_lag": lag, "layout": li}
 					locus := "bank-cycling"
 					c.Begin(locus, desc)
 					c.Nontrivial(fmt.Sprintf("bank/%v/%v/%d/%s", seq, comp, lag, codec))
 					c.Guard(locus, desc, det, func() {
+						if prelude {
+							avro.ReadFile(&filedrv.Reader{Data: data, Mode: f.mode}, BRec{}, func(val unsafe.Pointer, rb *avro.ResourceBank) error {
+								rb.Close()
+								return errAbandon
+							})
+						}
 						i := 0
 						bad := ""
 						var pending *avro.ResourceBank
+						var pendingVal reflect.Value
+						pendingIdx := -1
+						recheck := func() {
+							if bad == "" && pendingIdx >= 0 && pendingIdx < len(want) {
+								if path, dl, vc := gv.DiffLocus(want[pendingIdx], pendingVal); path != "" {
+									bad = fmt.Sprintf("wrong-value|%s|%s\x00record %d, still held with its bank open, reads %s one record later; the datum is %s (difference at %s)", dl, vc, pendingIdx, clip(gv.Show(pendingVal), 300), clip(recs[pendingIdx].String(), 300), path)
+								}
+							}
+						}
 						err := avro.ReadFile(&filedrv.Reader{Data: data, Mode: f.mode}, BRec{}, func(val unsafe.Pointer, rb *avro.ResourceBank) error {
 							got := reflect.NewAt(t, val).Elem()
 							if i < len(want) && bad == "" {
@@ -121,13 +138,18 @@ func runBankCycling(c *fw.Ctx, first int) {
 								rb.Close()
 							} else {
 								if pending != nil {
+									recheck()
 									pending.Close()
 								}
 								pending = rb
+								pendingIdx = i - 1
+								pendingVal = reflect.New(t).Elem()
+								pendingVal.Set(got) // what the consumer still holds of that record while its bank is open
 							}
 							return nil
 						})
 						if pending != nil {
+							recheck()
 							pending.Close()
 						}
 						switch {
@@ -140,12 +162,15 @@ func runBankCycling(c *fw.Ctx, first int) {
 							c.Violation("wrong-record-count|"+locus, fmt.Sprintf("%d records delivered, the file holds %d — %s", i, len(want), desc), det)
 						}
 					})
+
 				}
 			}
 		})
 	}
 	c.Sample(map[string]interface{}{"kind": "bank cycling", "first_shape": first, "files": k})
 }
+
+var errAbandon = fmt.Errorf("caller abandons the read")
 
 func indexNul(s string) int {
 	for i := 0; i < len(s); i++ {
